@@ -20,22 +20,36 @@ CONTRACTS = {
     "SpaceTimeParser.parse": dict(params=["info"], returns="Tree", assumed=True, observer=True),
     "Mapping.__init__": dict(
         kinds={"yaml": _Y},
-        local_kinds={"partitioning": "Optional[Dict[str, Dict[Tree, List[Tree]]]]"},
+        local_kinds={"partitioning": "Optional[Dict[str, Dict[Tree, List[Tree]]]]",
+                     "spacetime": "Optional[Dict[str, Dict[str, List[Tree]]]]"},
         modifies=["self.loop_orders", "self.partitioning", "self.rank_orders", "self.spacetime"],
         raises={"ValueError": None, "KeyError": None},
         ensures=[],
-        ghost_after={"partitioning[tensor] = {}": "g_inner = partitioning[tensor]\n"},
+        ghost_after={"partitioning[tensor] = {}": "g_inner = partitioning[tensor]\n",
+                     "spacetime[tensor] = {}": "g_st = spacetime[tensor]\n",
+                     "spacetime[tensor][stamp] = []": "g_sl = spacetime[tensor][stamp]\n"},
         loops={
             0: dict(idx="k0", modifies=["partitioning[]"], ghost_vars=["g_inner"],
                     inv=[("own", "fresh(partitioning)")]),
             1: dict(idx="k1", modifies=["g_inner[]"],
                     inv=[("inner", "same_ref(partitioning[tensor], g_inner) and fresh(g_inner) and not same_ref(g_inner, partitioning)")]),
+            # the spacetime section: every stamp string of `space` and of `time` is handed to SpaceTimeParser.parse as
+            # written, once, in order
+            3: dict(idx="k3", modifies=["spacetime[]"], ghost_vars=["g_st", "g_sl"],
+                    inv=[("own", "fresh(spacetime)")]),
+            4: dict(idx="k4", modifies=["g_st[]"], ghost_vars=["g_sl"],
+                    inv=[("inner", "same_ref(spacetime[tensor], g_st) and fresh(g_st) and not same_ref(g_st, spacetime)")]),
+            5: dict(idx="k5", modifies=["g_sl[]"],
+                    inv=[("each_stamp_parsed_as_written_in_order",
+                          "same_ref(spacetime[tensor][stamp], g_sl) and len(g_sl) == k5 and "
+                          "all(same_ref(g_sl[j], SpaceTimeParser.parse(info[stamp][j])) for j in range(k5))"),
+                         ("own_list", "fresh(g_sl) and not same_ref(g_sl, g_st) and not same_ref(g_sl, spacetime)")]),
             2: dict(idx="k2", modifies=["partitioning[tensor][ranks_tree][]"],
                     inv=[("each_directive_parsed_as_written_in_order",
                           "len(partitioning[tensor][ranks_tree]) == k2 and "
                           "all(same_ref(partitioning[tensor][ranks_tree][j], PartitioningParser.parse_partitioning(parts[j])) for j in range(k2))"),
                          ("own_list", "fresh(partitioning[tensor][ranks_tree])")]),
         },
-        abstract_loops={3: dict(modifies=["spacetime[]"], why="spacetime section (stamps): see the stamp lemma below")},
+        abstract_loops={},
     ),
 }
